@@ -1,5 +1,6 @@
 SPECIFICATION Spec
 CONSTANTS
+  InEncs = {"AESV2-V2", "V2-AESV2", "AESV2-AESV2", "V2-V2"}
   MaxPages = 2
   Extras = {"none", "shared", "cycle", "self", "stream", "strings", "nullref", "deep"}
   Encs = {"none", "none", "aes256", "rc4"}
